@@ -60,6 +60,19 @@ func c13scan(reset bool) c13op {
 	}}
 }
 
+// c13scanFail: the export callback refuses every record (a collector that is down): the scan reports the
+// error and the process carries on
+func c13scanFail() c13op {
+	return c13op{"Scan(callback fails)", func(ap *intermediate.AggregationProcess) string {
+		var out []string
+		err := ap.ForAllExpiredFlowRecordsDo(func(key intermediate.FlowKey, rec *intermediate.AggregationFlowRecord) error {
+			out = append(out, fmt.Sprintf("%v ready=%v {%s}", key, rec.ReadyToSend, c13values(rec.Record)))
+			return fmt.Errorf("export failed")
+		})
+		return fmt.Sprintf("offered=%v err=%v", out, err != nil)
+	}}
+}
+
 func c13query(k int) c13op {
 	return c13op{fmt.Sprintf("GetRecords(k%d)", k), func(ap *intermediate.AggregationProcess) string {
 		fk := aggfix.Keys[k].FlowKey()
@@ -197,7 +210,19 @@ func c13sequential(sc *c13scn, order [][2]int) ([]string, string) {
 	ap := sc.setup()
 	res := make([]string, len(order))
 	for i, o := range order {
-		res[i] = sc.threads[o[0]][o[1]].run(ap)
+		// an operation that cannot complete even when run alone (a lock left held by an earlier one) must not
+		// take the checker down: no concurrent execution will match this order
+		func() {
+			defer func() {
+				if r := recover(); r != nil {
+					res[i] = fmt.Sprintf("did not complete when run sequentially: %v", r)
+				}
+			}()
+			res[i] = sc.threads[o[0]][o[1]].run(ap)
+		}()
+		if strings.HasPrefix(res[i], "did not complete") {
+			return res, "unreachable"
+		}
 	}
 	return res, c13final(ap)
 }
@@ -397,6 +422,15 @@ func c13Scenarios(tier string) []*c13scn {
 			{c13scan(true), c13query(1)},
 		}},
 	}
+	scs = append(scs, &c13scn{name: "S10-failing-export-vs-ingest-and-query", setup: func() *intermediate.AggregationProcess {
+		ap := mk()
+		ingest(ap, c13spec(1, aggfix.Both, 1, 1))
+		adv(5)
+		return ap
+	}, threads: [][]c13op{
+		{c13scanFail(), c13numFlows},
+		{c13rec("Agg(k1,#2)", c13spec(1, aggfix.Both, 1, 2))},
+	}})
 	dstWithIP := c13spec(0, aggfix.Dst, 2, 2)
 	dstWithIP.ClusterIP = "10.96.0.10"
 	scs = append(scs,
